@@ -143,6 +143,9 @@ structure St where
   accepted : Nat := 0
   /-- connections for which `_serve_client` / the pool's connection building ran -/
   served : Nat := 0
+  /-- ghost: complete frames the server's `Connection.serve` calls have consumed (a progress counter the
+  correspondence can observe) -/
+  frames : Nat := 0
 
 def init (cfg : Cfg) : St := { cfg := cfg, poolUp := cfg.kind == .pool }
 
@@ -209,6 +212,22 @@ def poolConsume : List Item → Cli → Nat → Cli × Nat
   | .part :: rest, c, n =>
     if rest.isEmpty then ({ c with inbox := [], phase := .blocked }, n) else (endServe c, n)
 
+/-- complete frames that get through `serve()` before the client's own thread stops reading -/
+def dedFrames : List Item → Nat
+  | [] => 0
+  | .req _ _ :: r => 1 + dedFrames r
+  | .handled :: r => 1 + dedFrames r
+  | .bad :: _ => 1
+  | _ => 0
+
+/-- the same for a pool worker, which survives an undecodable frame -/
+def poolFrames : List Item → Nat
+  | [] => 0
+  | .req _ _ :: r => 1 + poolFrames r
+  | .handled :: r => 1 + poolFrames r
+  | .bad :: r => 1 + poolFrames r
+  | _ => 0
+
 /-! ### `Server.close` -/
 
 def St.mapCli (s : St) (f : Cli → Cli) : St := { s with cli := fun j => f (s.cli j) }
@@ -261,7 +280,8 @@ def applyConsumed (s : St) (k : Nat) (r : Cli × Nat) : St :=
 
 /-- the client's own thread / child serves what has arrived -/
 def runDedicated (s : St) (k : Nat) : St :=
-  applyConsumed s k (consume (s.cli k).inbox (s.cli k) s.nextObj)
+  applyConsumed { s with frames := s.frames + dedFrames (s.cli k).inbox } k
+    (consume (s.cli k).inbox (s.cli k) s.nextObj)
 
 /-- `_serve_client`: `service._connect` creates the service instance (a class is registered) and the
 connection with its own tables, `on_connect` runs -/
@@ -300,7 +320,8 @@ def poolPlace (s : St) (k : Nat) (r : Cli × Nat) : St :=
 
 /-- a worker took `k` from the active queue -/
 def poolServeOne (s : St) (k : Nat) : St :=
-  poolPlace s k (poolConsume (s.cli k).inbox (s.cli k) s.nextObj)
+  poolPlace { s with frames := s.frames + poolFrames (s.cli k).inbox } k
+    (poolConsume (s.cli k).inbox (s.cli k) s.nextObj)
 
 /-- free workers take descriptors from the queue in FIFO order -/
 def drain : List Nat → St → St
@@ -482,11 +503,11 @@ def numEq (v : Val) (n : Nat) : Bool :=
   | .complex re im => smallFloat n == some re && (im == 0 || im == 0x8000000000000000)
   | _ => false
 
-inductive Shape where
+inductive Unpacked where
   | three (m seq args : Val) | notThree | unordered
 
 /-- `msg, seq, args = brine.load(data)` -/
-def unpack3 : Val → Shape
+def unpack3 : Val → Unpacked
   | .tuple [a, b, c] => .three a b c
   | .bytes [a, b, c] => .three (.int a) (.int b) (.int c)
   | .str [a, b, c] => .three (.str [a]) (.str [b]) (.str [c])
